@@ -132,13 +132,6 @@ theorem c17_shared_error_object_double_write :
 
 /-! ### the random source of the D2 resolver -/
 
-/-- two concurrent `ResolveHostnameAndContextForQuery` calls on a snapshot with two hosts of weight 1 -/
-def rngCexSys : Sys Shared Local :=
-  mkSys ⟨[], [], [], [(7, 1), (8, 1)], 0⟩ [resolveNow constsV2, resolveNow constsV2]
-
-/-- both calls read the generator state before either writes it back -/
-def rngCexSched : Schedule := [0, 0, 1, 1, 0, 1, 0, 1]
-
 /-- final shared state and outcomes -/
 def final (sys : Sys Shared Local) (sched : Schedule) : Shared × List Local :=
   ((run sys sched).shared, outcomes (run sys sched))
@@ -150,59 +143,21 @@ def SerialEquivalent2 (sys : Sys Shared Local) (sched : Schedule) : Prop :=
 instance (sys : Sys Shared Local) (sched : Schedule) : Decidable (SerialEquivalent2 sys sched) := by
   unfold SerialEquivalent2; exact inferInstance
 
-/-- **Today's random source loses updates (F16).** The resolver as it is in /repo now
-(`resolveNow`: `rngUnlocked = true` is read off the regenerated table, so this witness stops building
-the day the draw is put under a lock — it is then to be retired with the guard of `c17_rng_partial`):
-`rng.Float64()` without a lock is a read and a write with a gap between them; there is a complete
-schedule of two resolver calls whose result — both calls receive the same draw, the generator
-advances once — is the result of NO serial execution. -/
-theorem c17_rng_lost_update_cex :
-    ¬ ∀ sched, 4 ≤ sched.count 0 → 4 ≤ sched.count 1 → SerialEquivalent2 rngCexSys sched := by
-  intro h
-  exact absurd (h rngCexSched (by decide) (by decide)) (by decide)
+/- RETIRED with /repo commit 08c3f03 ("fix: serialise draws from the process-wide d2 random source").
+Until then `rng.Float64()` ran without a lock (`Gen.C17.rngDrawUnlocked = true`, `resolveNow = resolveProg false`:
+a read step and a write step with a gap between them) and the following was a theorem, proved by `decide`:
 
-/-- a system with ONE resolver call (thread 0; today's unlocked code) next to any number of server
-requests (copying error branch) and adapter look-ups -/
-def oneResolverSys (C : Consts) (s : Shared) (reqs : List Req) (tys : List Nat) : Sys Shared Local :=
-  mkSys s (resolveProg false :: (reqs.map (serveProg C true) ++ tys.map loadProg))
+    def rngCexSys : Sys Shared Local :=
+      mkSys ⟨[], [], [], [(7, 1), (8, 1)], 0⟩ [resolveNow constsV2, resolveNow constsV2]
+    def rngCexSched : Schedule := [0, 0, 1, 1, 0, 1, 0, 1]   -- both calls read before either writes back
+    theorem c17_rng_lost_update_cex :
+        ¬ ∀ sched, 4 ≤ sched.count 0 → 4 ≤ sched.count 1 → SerialEquivalent2 rngCexSys sched
 
-/-- **Random source, guarded.** With at most one resolver call in flight (guard: thread 0 is the only
-thread running `resolveProg`), for every schedule: the resolver and the shared state are where the
-resolver's solo run puts them — so everything except the generator position is unchanged — and
-every other completed request has its solo outcome. -/
-theorem c17_rng_partial (C : Consts) (s : Shared) (reqs : List Req) (tys : List Nat) (sched : Schedule) :
-    let sys := oneResolverSys C s reqs tys
-    let tw : Thread Shared Local := ⟨resolveProg false, {}⟩
-    (run sys sched).shared = (advance s tw (sched.count 0)).1 ∧
-    EqExceptRng s (run sys sched).shared ∧
-    (run sys sched).threads[0]? = some (advance s tw (sched.count 0)).2 ∧
-    ∀ i t, i ≠ 0 → sys.threads[i]? = some t → t.todo.length ≤ sched.count i →
-      (run sys sched).threads[i]? = some (runAlone s t).2 := by
-  intro sys tw
-  have hw : sys.threads[0]? = some tw := rfl
-  have hwithin : ∀ a ∈ tw.todo, ∀ s l, EqExceptRng s (a.step s l).1 := resolveProg_within false
-  have hblind : ∀ i t, i ≠ 0 → sys.threads[i]? = some t → ∀ a ∈ t.todo,
-      (∀ s l, (a.step s l).1 = s) ∧ ∀ s s' l, EqExceptRng s s' → (a.step s l).2 = (a.step s' l).2 := by
-    intro i t hi ht a ha
-    cases i with
-    | zero => exact absurd rfl hi
-    | succ j =>
-      have ht' : t ∈ (mkSys s (reqs.map (serveProg C true) ++ tys.map loadProg)).threads := by
-        have : (mkSys s (reqs.map (serveProg C true) ++ tys.map loadProg)).threads[j]? = some t := by
-          simpa [sys, oneResolverSys, mkSys] using ht
-        exact List.mem_of_getElem? this
-      have hp := (mem_mkSys ht').2
-      rcases List.mem_append.mp hp with hp | hp
-      · obtain ⟨q, _, hq⟩ := List.mem_map.mp hp
-        exact serveProg_fixed_blind C q a (hq ▸ ha)
-      · obtain ⟨ty, _, hq⟩ := List.mem_map.mp hp
-        exact loadProg_blind ty a (hq ▸ ha)
-  have h := c17_single_writer_commute EqExceptRng eqExceptRng_refl sys 0 tw hw hwithin hblind sched
-  refine ⟨h.1, ?_, h.2.1, fun i t hi ht hd => ?_⟩
-  · rw [h.1]
-    exact advance_within_rel (t := tw) (resolveProg_within false) s (sched.count 0)
-  · have := h.2.2 i t hi ht
-    rwa [advance_ge hd] at this
+(both calls receive draw 0 and choose host 7, the generator stands at 1; serially the draws are 0 and 1,
+the hosts 7 and 8, the generator stands at 2). The same witness stated for the explicit unlocked program
+`resolveProg false` is kept among the examples at the end of this file; with the regenerated switch the
+statement about `resolveNow` is now false, and `c17_resolvers_commute` below holds without the former
+guard "at most one resolution in flight" of `c17_rng_partial`. -/
 
 /-- **Random source under a lock: no draw is handed out twice.** Any number of resolver calls whose
 draw is one atomic step (the repaired `rng` access), next to any number of server requests and
@@ -231,6 +186,76 @@ theorem c17_rng_locked_draws_distinct (C : Consts) (s : Shared) (nResolvers : Na
     · intro i j ti tj d _ hi _ hd
       have := (mem_mkSys (s := s) (List.mem_of_getElem? hi)).1
       rw [this] at hd; cases hd
+
+/-- **Regions.** If every thread either changes the shared state only inside a region (`R`-classes:
+"equal outside the region"; `R` reflexive and transitive) or only reads and never looks inside it,
+then for every schedule the shared state is unchanged outside the region and every thread of the
+second kind is where its solo run from the initial state puts it — however many writers there are. -/
+theorem c17_region_writers_commute {S : Type u} {L : Type v} (R : S → S → Prop) (hrefl : ∀ s, R s s)
+    (htrans : ∀ a b c, R a b → R b c → R a c) (sys : Sys S L)
+    (hkinds : ∀ t ∈ sys.threads,
+      (∀ a ∈ t.todo, ∀ s l, R s (a.step s l).1) ∨
+      (∀ a ∈ t.todo, (∀ s l, (a.step s l).1 = s) ∧ ∀ s s' l, R s s' → (a.step s l).2 = (a.step s' l).2))
+    (sched : Schedule) :
+    R sys.shared (run sys sched).shared ∧
+    ∀ i t, sys.threads[i]? = some t →
+      (∀ a ∈ t.todo, (∀ s l, (a.step s l).1 = s) ∧ ∀ s s' l, R s s' → (a.step s l).2 = (a.step s' l).2) →
+      (run sys sched).threads[i]? = some (advance sys.shared t (sched.count i)).2 := by
+  cases sys with
+  | mk s0 ts => exact run_region_writers R hrefl htrans sched s0 ts hkinds
+
+/-- any number of concurrent `ResolveHostnameAndContextForQuery` calls, server requests and adapter
+look-ups, each as it is in /repo now -/
+def resolverSys (C : Consts) (s : Shared) (n : Nat) (reqs : List Req) (tys : List Nat) : Sys Shared Local :=
+  mkSys s (List.replicate n (resolveNow C) ++ (reqs.map (serveNow C) ++ tys.map loadProg))
+
+/-- **The resolver: requests do not interfere** (full strength since 08c3f03; formerly
+`c17_rng_partial`, which needed the guard "at most one resolution in flight"). For both module
+generations as they are in /repo now, any number `n` of concurrent resolver calls next to any server
+requests and adapter look-ups, and EVERY schedule: nothing but the generator position changes in the
+shared state; the draws handed to different calls are pairwise distinct and below the generator
+position (no update is lost, no draw is handed out twice); and every other request that ran to
+completion has the outcome of its solo run. (The proof reads `rngUnlocked = false` off the
+regenerated table, so removing the lock breaks it.) -/
+theorem c17_resolvers_commute (C : Consts) (hC : C = constsV2 ∨ C = constsRoot) (s : Shared) (n : Nat)
+    (reqs : List Req) (tys : List Nat) (sched : Schedule) :
+    EqExceptRng s (run (resolverSys C s n reqs tys) sched).shared ∧
+    DrawsOk (run (resolverSys C s n reqs tys) sched).shared (run (resolverSys C s n reqs tys) sched).threads ∧
+    ∀ i t, (resolverSys C s n reqs tys).threads[i]? = some t → t.todo ≠ resolveNow C →
+      t.todo.length ≤ sched.count i →
+      (run (resolverSys C s n reqs tys) sched).threads[i]? = some (runAlone s t).2 := by
+  have hserve : (!C.storesThroughPointer) = true := by rcases hC with rfl | rfl <;> decide
+  have hlock : (!C.rngUnlocked) = true := by rcases hC with rfl | rfl <;> decide
+  have hres : resolveNow C = resolveProg true := by simp [resolveNow, hlock]
+  have hsrv : serveNow C = serveProg C true := by funext q; simp [serveNow, hserve]
+  have hsys : resolverSys C s n reqs tys =
+      mkSys s (List.replicate n (resolveProg true) ++ (reqs.map (serveProg C true) ++ tys.map loadProg)) := by
+    simp [resolverSys, hres, hsrv]
+  have hblindOf : ∀ t ∈ (resolverSys C s n reqs tys).threads, t.todo ≠ resolveNow C →
+      ∀ a ∈ t.todo, BlindAct a := by
+    intro t ht hne a ha
+    rw [hsys] at ht
+    have hp := (mem_mkSys ht).2
+    rcases List.mem_append.mp hp with hp | hp
+    · exact absurd (hres ▸ List.eq_of_mem_replicate hp) hne
+    · rcases List.mem_append.mp hp with hp | hp
+      · obtain ⟨q, _, hq⟩ := List.mem_map.mp hp
+        exact serveProg_fixed_blind C q a (hq ▸ ha)
+      · obtain ⟨ty, _, hq⟩ := List.mem_map.mp hp
+        exact loadProg_blind ty a (hq ▸ ha)
+  have hkinds : ∀ t ∈ (resolverSys C s n reqs tys).threads,
+      (∀ a ∈ t.todo, ∀ s l, EqExceptRng s (a.step s l).1) ∨ (∀ a ∈ t.todo, BlindAct a) := by
+    intro t ht
+    by_cases hne : t.todo = resolveNow C
+    · left; intro a ha; rw [hne, hres] at ha; exact resolveProg_within true a ha
+    · right; exact hblindOf t ht hne
+  have h := c17_region_writers_commute EqExceptRng eqExceptRng_refl (fun _ _ _ => eqExceptRng_trans)
+    (resolverSys C s n reqs tys) hkinds sched
+  refine ⟨h.1, ?_, fun i t hi hne hd => ?_⟩
+  · rw [hsys]; exact c17_rng_locked_draws_distinct C s n reqs tys sched
+  · have := h.2 i t hi (hblindOf t (List.mem_of_getElem? hi) hne)
+    rw [advance_ge hd] at this
+    exact this
 
 /-! ## Non-vacuity -/
 
@@ -273,14 +298,16 @@ example :
         [false, false, false, false, false, true, false, false] := by
   decide +kernel
 
-/-- the lost update, spelled out: both calls draw 0 and choose host 7, the generator stands at 1;
+/-- the retired witness (unlocked program, in /repo until 08c3f03), spelled out: both calls draw 0 and choose host 7, the generator stands at 1;
 serially the draws are 0 and 1, the hosts 7 and 8, the generator stands at 2 -/
 example :
-    (final rngCexSys rngCexSched).2.map (fun l => (l.draw, l.host)) = [(some 0, some (some 7)), (some 0, some (some 7))] ∧
-    (final rngCexSys rngCexSched).1.rng = 1 ∧
-    (final rngCexSys (serialSchedule rngCexSys [0, 1])).2.map (fun l => (l.draw, l.host)) =
+    let unlocked := mkSys ⟨[], [], [], [(7, 1), (8, 1)], 0⟩ [resolveProg false, resolveProg false]
+    (final unlocked [0, 0, 1, 1, 0, 1, 0, 1]).2.map (fun l => (l.draw, l.host)) = [(some 0, some (some 7)), (some 0, some (some 7))] ∧
+    (final unlocked [0, 0, 1, 1, 0, 1, 0, 1]).1.rng = 1 ∧
+    (final unlocked (serialSchedule unlocked [0, 1])).2.map (fun l => (l.draw, l.host)) =
       [(some 0, some (some 7)), (some 1, some (some 8))] ∧
-    (final rngCexSys (serialSchedule rngCexSys [0, 1])).1.rng = 2 := by
+    (final unlocked (serialSchedule unlocked [0, 1])).1.rng = 2 ∧
+    ¬ SerialEquivalent2 unlocked [0, 0, 1, 1, 0, 1, 0, 1] := by
   decide
 
 /-- with the draw under a lock the same schedule shape is serial-equivalent -/
@@ -294,11 +321,14 @@ example :
       [0, 1, 2, 2, 1, 0, 0, 1, 2])).map (·.draw) = [some 2, some 1, some 0] := by
   decide
 
-/-- the one-resolver theorem covers a run in which the resolver's two halves are separated by other
-requests' steps: the generator advances, nothing else changes -/
+/-- the resolver theorem on a run of two resolver calls, seven server requests and an adapter look-up,
+interleaved round-robin: the generator advances twice, nothing else changes, the two calls hold
+draws 0 and 1 and choose different hosts -/
 example :
-    (run (oneResolverSys constsV2 demoShared demoReqs [5]) (0 :: 0 :: demoSched ++ [0, 0])).shared =
-      { demoShared with rng := 1 } := by
+    (run (resolverSys constsV2 demoShared 2 demoReqs [5]) (List.replicate 9 (List.range 10)).flatten).shared =
+      { demoShared with rng := 2 } ∧
+    ((outcomes (run (resolverSys constsV2 demoShared 2 demoReqs [5]) (List.replicate 9 (List.range 10)).flatten)).take 2).map
+      (fun l => (l.draw, l.host)) = [(some 0, some (some 7)), (some 1, some (some 8))] := by
   decide +kernel
 
 end Restli.SharedCells
